@@ -23,9 +23,9 @@ from tools import projgen, vlib
 from tools.vlib import Outcome, sx
 
 MANIFEST = {
-    "level_text": "Coq theorems (Properties/C10.v, no axioms) about a Gallina transcription of the plain renderer (base/type_visitor.rs), ZodVisitor (visit_type, visit_type_for_interface), ZodSchemaBuilder::render_type/build_schema/build_param_schema (validator None) and of the types.ts templates of both modes, for ALL TypeStructure values, mappings and analysis results: the text of the plain renderer (and of the Zod visitor's interface renderer) lexes and parses to the modelled declaration tree for every in-domain type within the parser's nesting budget (structural induction through the specification lexer and parser, C10_plain_text_denotes); per-key shape agreement between the Zod schema and the plain declaration outside four narrow recorded classes (z.set, Result union, T | null[], each refuted with a computed witness), JSON-serialisability of parameter schemas outside the z.set class, structural acceptance outside the Option class (.optional() refuses the explicit null; refuted), equal key lists per item, and equal type-name lists for every analysis result (the enum class was repaired by C10-5-zod-enum-alias; its former witness is now a positive theorem). Tied to /repo on every run: the model's five strings equal the real renderers' output, the specification parser (Spec/TsModule.v) reads the model's syntax trees from them, and types.ts written by both real generators (in-process generate_models and the real CLI on random projects) parse to the model's items; the extracted oracle compare_modules is applied to the implementation's files.",
+    "level_text": "Coq theorems (Properties/C10.v, no axioms) about a Gallina transcription of the plain renderer (base/type_visitor.rs), ZodVisitor (visit_type, visit_type_for_interface), ZodSchemaBuilder::render_type/build_schema/build_param_schema (validator None) and of the types.ts templates of both modes, for ALL TypeStructure values, mappings and analysis results: the text of the plain renderer (and of the Zod visitor's interface renderer) lexes and parses to the modelled declaration tree for every in-domain type within the parser's nesting budget (structural induction through the specification lexer and parser, C10_plain_text_denotes), and so does the text of the schema builder (C10_builder_text_denotes); per-key shape agreement, stated on the parsed texts (C10_shapes, C10_json, C10_accept), between the Zod schema and the plain declaration outside four narrow recorded classes (z.set, Result union, T | null[], each refuted with a computed witness), JSON-serialisability of parameter schemas outside the z.set class, structural acceptance outside the Option class (.optional() refuses the explicit null; refuted), equal key lists per item, and equal type-name lists for every analysis result (the enum class was repaired by C10-5-zod-enum-alias; its former witness is now a positive theorem). Tied to /repo on every run: the model's five strings equal the real renderers' output, the specification parser (Spec/TsModule.v) reads the model's syntax trees from them, and types.ts written by both real generators (in-process generate_models and the real CLI on random projects) parse to the model's items; the extracted oracle compare_modules is applied to the implementation's files.",
     "design_ref": "DESIGN.md section 5 C10, section 12",
-    "level_note": "String level, TypeScript side, is now proved for ALL in-domain types whose Record/tuple nesting is below the specification parser's budget of 64 (C10_plain_text_denotes: parse_ty (plain m t) = Some (ts_ty_of m t), same for the Zod visitor's interface renderer), by structural induction through the character lexer (Proofs/C10LexTy.v) and a print/parse round trip of the type parser (Proofs/C10ParseTy.v); C10_shapes_text_partial reads the declaration side from the printed text. Still partial: the Zod side of the string level, parse_ex (build_schema m t) = Some (zex_of m t false), is checked by the depth-2 vm_compute sweep (C10_denotation_sweep) and on every case of every run, not proved for all types (C10_shapes_full_statement names exactly this gap). C10_oracle_exact proves that the per-key tag oracle is empty iff the shapes agree and (for parameter schemas) every node is JSON and nothing of the declared type is refused. C10_names / C10_keys are proved per item and for the name lists of the two item lists; the module-level statement through name lookup (compare_modules of the model's modules is empty) is kept as C10_modules_full_statement, not asserted. Validator chains are stripped, not modelled (C11). At project level the TypeStructure of a Rust type is the structure of its syntax tree (structure_of), checked per project against the real CLI. Key quoting (ts_key) treats bytes above 127 as letters. Meaning of Zod combinators is a specification (Zod 4 documentation), not verified against a Zod runtime; record keys: z.number() assumed to accept numeric string keys (Zod >= 4.2).",
+    "level_note": "String level is now proved on BOTH sides for all in-domain types within the specification parsers' nesting budgets (TypeStructure depth < 31 suffices, C10_shapes_depth): C10_plain_text_denotes (plain renderer and the Zod visitor's interface renderer: Proofs/C10LexTy.v + C10ParseTy.v), C10_builder_text_denotes (ZodSchemaBuilder text, validator None: Proofs/C10LexEx.v + C10ParseEx.v, round trip through p_expr / p_atom / p_ops / p_exlist / p_props), and C10_shapes / C10_json / C10_accept read both printed texts back with the specification lexer and parser (the former C10_shapes_full_statement is asserted). Still partial: (1) C10_shapes_field_partial / _param_partial are stated on the member trees because the types.ts templates are modelled at tree level (their text is tied to the trees by the run-time correspondence on every case, not by a theorem); (2) ZodVisitor::visit_type text (zvisit, only reachable through visit_custom in the output) is covered by C10_denotation_sweep to depth 2 and the run-time check only; (3) C10_modules_full_statement (the module-level oracle is empty on the model's two modules; needs lookup lemmas under NoDup names) is stated, not asserted; (4) theorems assume primitive mapping targets (map_ok); wider targets are covered by the correspondence run only. C10_oracle_exact reflects the per-key oracle. Validator chains are stripped, not modelled (C11). At project level the TypeStructure of a Rust type is the structure of its syntax tree (structure_of), checked per project against the real CLI. Key quoting (ts_key) treats bytes above 127 as letters. Meaning of Zod combinators is a specification (Zod 4 documentation), not verified against a Zod runtime; record keys: z.number() assumed to accept numeric string keys (Zod >= 4.2).",
     "technique": "Rocq/Coq proof over hand-written model + correspondence check (extracted OCaml vs Rust harness and real CLI)"
 }
 
